@@ -1,7 +1,7 @@
 (* C10 — shape of the generated cases and the two executable verdicts. No proofs. *)
 From Coq Require Import Uint63.
 From VLib Require Import CaseLib.
-From C10 Require Import Model Spec.
+From C10 Require Import Model ModelMeta Spec.
 
 (* bytes are written in the case files as primitive 63-bit integers 0x01 b1 .. bk (k <= 7): lists of
    N numerals, string literals and big numerals all elaborate too slowly for thousands of bodies.
@@ -27,6 +27,20 @@ Fixpoint lookup (tbl : list (list N * docinfo)) (d : list N) : option docinfo :=
   | (k, i) :: r => if bytes_eqb k d then Some i else lookup r d
   end.
 
+(* metas payload *)
+Definition tok_eqb (a b : list N * list N) : bool := bytes_eqb (fst a) (fst b) && bytes_eqb (snd a) (snd b).
+Definition meta_eqb (a b : meta) : bool :=
+  N.eqb (m_mid a) (m_mid b) && N.eqb (m_rid a) (m_rid b) && N.eqb (m_size a) (m_size b)
+  && list_eqb tok_eqb (m_tokens a) (m_tokens b).
+Inductive uclass := KOk (m : meta) | KErr | KPanic.
+Definition uclass_eqb (a : ures meta) (b : uclass) : bool :=
+  match a, b with
+  | UOk x, KOk y => meta_eqb x y
+  | UErr, KErr => true
+  | UPanic, KPanic => true
+  | _, _ => false
+  end.
+
 (* what was observed on the real handler *)
 Record impl := {
   i_ok : bool;                                  (* HTTP status 2xx *)
@@ -39,6 +53,13 @@ Record impl := {
 
 Inductive case :=
 (* one request: buffer size, request time / drifts (ns), decompressed body, oracle table *)
+(* real MetaData.MarshalBinaryTo of m, and real UnmarshalBinary of those bytes *)
+| CMeta (m : meta) (bytes : list N) (un : uclass)
+(* real UnmarshalBinary on truncated / corrupted-header / extended bytes *)
+| CMetaBytes (b : list N) (un : uclass)
+(* the metas payload handed to StoreDocuments by the real ingest path (marshalAppendMeta per meta),
+   and the metas the real UnmarshalBinary reads from it *)
+| CMetaPayload (payload : list N) (ms : list meta)
 | CBulk (eager : bool) (B : nat) (now drift fdrift : Z) (body : list N) (tbl : list (list N * docinfo)) (r : impl).
 
 Definition stored_eqb (a b : list N * (Z * nat)) : bool :=
@@ -50,6 +71,13 @@ Definition info_of (tbl : list (list N * docinfo)) (d : list N) : docinfo :=
 (* model output = implementation output *)
 Definition case_agrees (c : case) : bool :=
   match c with
+  | CMeta m bytes un => bytes_eqb (marshal_meta m) bytes && uclass_eqb (unmarshal_meta bytes) un
+  | CMetaBytes b un => uclass_eqb (unmarshal_meta b) un
+  | CMetaPayload payload ms =>
+      match decode_metas (S (length payload)) payload with
+      | UOk ms' => list_eqb meta_eqb ms' ms
+      | _ => false
+      end && bytes_eqb (encode_metas ms) payload
   | CBulk eager B now drift fdrift body tbl r =>
       match run_body eager B (fun d => option_map d_cls (lookup tbl d)) body with
       | Accepted ds =>
@@ -68,6 +96,9 @@ Definition case_agrees (c : case) : bool :=
    time parsing: the expected instant is the one the generator rendered into the document) *)
 Definition case_spec_ok (c : case) : bool :=
   match c with
+  | CMeta m _ un => match un with KOk m' => meta_eqb m m' | _ => false end    (* what was written is read back *)
+  | CMetaBytes _ _ => true
+  | CMetaPayload _ _ => true
   | CBulk eager B now drift fdrift body tbl r =>
       match spec_outcome (fun d => d_cls (info_of tbl d)) eager B body with
       | Accepted ds =>
